@@ -773,11 +773,11 @@ impl C16 {
 impl Monitor for C16 {
     fn engines(&self, tier: Tier) -> Vec<(&'static str, u64)> {
         vec![
-            ("writers", tier.pick(400_000, 5_000_000)),
-            ("readers", tier.pick(600_000, 7_000_000)),
-            ("limited", tier.pick(200_000, 2_500_000)),
-            ("builder", tier.pick(80_000, 1_000_000)),
-            ("skip", tier.pick(60_000, 800_000)),
+            ("writers", tier.pick(400_000, 15_000_000)),
+            ("readers", tier.pick(600_000, 21_000_000)),
+            ("limited", tier.pick(200_000, 7_500_000)),
+            ("builder", tier.pick(80_000, 3_000_000)),
+            ("skip", tier.pick(60_000, 2_400_000)),
         ]
     }
 
